@@ -5,23 +5,44 @@ LEVEL = "model_checking"
 
 
 def run(ck):
-    pass
-    plan = [("gst", 40)] if ck.tier == "quick" else [("gst", 1200)]
-    seeds = [ck.seed] if ck.tier == "quick" else [ck.seed, ck.seed + 1000]
-    traces, st = conslib.run_layers(ck, plan, ["C06_"], seeds=seeds, conformance=(ck.tier != "quick"))
+    quick = ck.tier == "quick"
+    # (D) MCGPBFTSync.tla: arbitrary asynchronous prefix with Byzantine messages, stabilisation, quiescence-gated timeouts; no stuck state
+    #     (deadlock freedom) and the round bound, by TLC simulation; the mutant "only the full proposal becomes a candidate" (the defect repaired
+    #     by the fix: commit cdd137c) must violate the round bound
+    hists = []
+    for k, (model, prefix) in enumerate([("nest", 25), ("nest3", 12)] if quick else [("nest", 25), ("nest3", 12), ("fork", 40), ("nest", 0), ("nest3", 40)]):
+        hists += [(model, h) for h in conslib.sync_design(ck, "sync%d" % k, model, 60 if quick else 1500, prefix, ck.seed + k)]
+    conslib.sync_design(ck, "syncmut", "nest3", 200 if quick else 600, 25, ck.seed, overrides=["AddCandPrefixes <- AddCandOnlyFull"], expect_refuted=True, export=False)
+    # (T) real participants with their own timers, back-off and rebroadcast under partial synchrony
+    plan = [("gst", 40)] if quick else [("gst", 1200)]
+    seeds = [ck.seed] if quick else [ck.seed, ck.seed + 1000]
+    traces, st = conslib.run_layers(ck, plan, ["C06_"], seeds=seeds, conformance=not quick)
     g = conslib.gst_stats(traces)
+    # (R) the schedules TLC chose on the design model (prefix + synchronous tail) replayed on real participants; afterwards the network stays timely
+    if not ck.violations:
+        for model in sorted({m for m, _ in hists}):
+            hs = [h for m, h in hists if m == model][: (40 if quick else 800)]
+            tr = conslib.replay_conformance(ck, ck.binary, model, hs, ["C06_"], tag="rsync" + model, conformance=not quick, sync=True)
+            g2 = conslib.gst_stats(tr)
+            g["sync_replays"] = g.get("sync_replays", 0) + g2["gst_runs"]
     ck.cov["antecedents"].update(g)
-    if g["runs_round_gt0_at_gst"] < 3 or g["runs_with_byz_before_gst"] < 3:
-        raise Inconclusive("vacuous run: stabilisation never hit a late round / no Byzantine history: %s" % g)
-    ck.cov["distinct_nontrivial"] = g["gst_runs"]
-    ck.cov["rule"] = ("a case = one run of real participants with their own timers: arbitrary delay/reorder, staggered starts and Byzantine messages before stabilisation (no loss between "
-                      "honest members), delivery within the synchrony bound and silent faulty members afterwards; TLC evaluates C06_DecidesWithinBound on the End record "
-                      "(bound +6 rounds when no Byzantine message was ever delivered, +40 otherwise; the driver stops a run at the bound)")
+    if not ck.violations and (g["runs_round_gt0_at_gst"] < 3 or g["runs_with_byz_before_gst"] < 3 or not g.get("sync_replays")):
+        raise Inconclusive("vacuous run: stabilisation never hit a late round / no Byzantine history / no replay: %s" % g)
+    ck.cov["distinct_nontrivial"] = g["gst_runs"] + g.get("sync_replays", 0)
+    ck.cov["rule"] = ("design: random walks of MCGPBFTSync.tla (prefix, stabilisation, quiescence-gated timeouts), stuck states = deadlocks, round bound +2 as invariant; code: a case = one "
+                      "run of real participants with their own timers: arbitrary delay/reorder, staggered starts and Byzantine messages before stabilisation (no loss between honest "
+                      "members), delivery within the synchrony bound and silent faulty members afterwards, plus replays of the TLC-chosen schedules; TLC evaluates C06_DecidesWithinBound on "
+                      "the End record (every started honest participant decided, highest round reached <= highest round at stabilisation +6 when no Byzantine message was ever delivered, +40 otherwise)")
+    ck.assumptions += ["sim/signing.FakeBackend stands for BLS", "the driver's virtual clock and network model of partial synchrony",
+                       "design model: timeouts fire only when the network is quiescent (timer arithmetic is exercised on the real participants only)"]
 
 
 MANIFEST = dict(
-    text=("Liveness is checked by TLC on GPBFTSync.tla (synchronous tail, fairness) at design level; on the code, partially synchronous runs of real participants with their real timers, "
-          "back-off and rebroadcast are recorded and TLC evaluates the termination clause (every started honest participant decides within the stated round bound after stabilisation)."),
-    note="Trusted: TLC, the driver's virtual clock and network model of partial synchrony. The design-level liveness result covers bounded prefixes only; the weight rests on the recorded runs (sampled).",
-    technique="TLC liveness check of GPBFTSync.tla + TLA+ termination clause evaluated on recorded partially-synchronous runs of real participants",
+    text=("Termination is checked by TLC on MCGPBFTSync.tla, the implementation-shaped per-message model extended with stabilisation: after an arbitrary asynchronous prefix (any order, any "
+          "validly signed Byzantine message) faulty members fall silent, every honest vote is delivered and timeouts fire only at quiescence; on every random walk no state is stuck "
+          "(deadlock freedom) and nobody moves more than 2 rounds beyond the round reached at stabilisation; the mutant reproducing the repaired candidate-prefix defect must violate the bound. "
+          "On the code, partially synchronous runs of real participants with their real timers, back-off and rebroadcast, and replays of the TLC-chosen schedules, are recorded and TLC "
+          "evaluates the termination clause (every started honest participant decides within the stated round bound after stabilisation)."),
+    note="Trusted: TLC, the driver's virtual clock and network model of partial synchrony. The design-level result is simulation (sampled walks), with quiescence-gated timeouts instead of timer arithmetic; the real timers are exercised by the recorded runs (sampled).",
+    technique="TLC simulation of MCGPBFTSync.tla (deadlock freedom + round bound) + replay of its schedules and TLA+ termination clause on recorded partially-synchronous runs of real participants",
     design_ref="DESIGN.md section 6 C06")
